@@ -794,4 +794,36 @@ def gen(seed, tier):
             if r.random() < 0.2:
                 toks.append("X" + rb(r, r.randrange(1, 26)).hex())
         add("DS", "DS %s %s %s" % (own.hex(), target.hex(), " ".join(toks)))
+    # ---- UDP tracker whose host name is still being resolved: nothing may be accepted, whatever sender / id / shape
+    pend = []
+    for fam in (4, 6):
+        for length in (0, 7, 8, 15, 16, 17, 20, 26, 98):
+            for action in (0, 1, 3):
+                for tx in (SYM_C, 0x01020304):
+                    for ok in (True, False):
+                        pend.append((fam, ok, dgram(action, tx, struct.pack(">Q", 0x1122334455667788) + rb(r, 12), length)))
+    r.shuffle(pend)
+    for fam in (4, 6):
+        mine = [(ok, d) for f, ok, d in pend if f == fam]
+        for j in range(0, len(mine), 6):
+            add("UP", "UP %d %d" % (fam, r.randrange(0, 4)) + "".join(" D %d %s" % (1 if ok else 0, hx(d)) for ok, d in mine[j:j + 6]))
+    # ---- several announces on one TrackerHttp object with a change of the address-family configuration in between
+    okb2 = benc(("M", [(b"interval", 1800), (b"peers", compact4(r, 1))]))
+    pool = [okb, okb2, b"<html>503</html>", b"d14:failure reason3:bade", b"", b"de", b"i1e"]
+    for cfgs in (("b", "4"), ("b", "6"), ("b", "b"), ("4", "b"), ("b", "n", "4"), ("6", "4"), ("b", "4", "b")):
+        for first in (okb, b"xx"):
+            for last in (b"<html>503</html>", okb2, b"d14:failure reason3:bade"):
+                anns = []
+                for j, c in enumerate(cfgs):
+                    b1 = first if j == 0 else last if j == len(cfgs) - 1 else r.choice(pool)
+                    b2 = (first if j == 0 else r.choice(pool)) if c == "b" else None
+                    anns.append("A %s %s %s" % (c, hx(b1), hx(b2) if b2 is not None else "~"))
+                add("H3-hand", "H3 2 " + " ".join(anns))
+    for _ in range(150 if not thorough else 2000):
+        anns = []
+        for _ in range(r.randrange(2, 4)):
+            c = r.choice("bb446n")
+            bs = [r.choice(pool) if r.random() < 0.7 else http_body(r) for _ in range(2)]
+            anns.append("A %s %s %s" % (c, hx(bs[0]), hx(bs[1]) if r.random() < 0.85 else "~"))
+        add("H3", "H3 %d " % r.randrange(0, 4) + " ".join(anns))
     return cases, stats
